@@ -446,9 +446,11 @@ func scriptsFromRanges(ranges [][2]rune) ScriptSet {
 		}
 
 		if indexS >= LR {
-			// the incomming ranges are higher than known scripts :
-			// add Unknown and break early
-			out.insert(language.Unknown)
+			// all the known scripts are consumed : what remains of the ranges
+			// is Unknown, if it reaches beyond the last script
+			if ranges[len(ranges)-1][1] > language.ScriptRanges[LR-1].End {
+				out.insert(language.Unknown)
+			}
 			break
 		}
 	}
